@@ -8,6 +8,7 @@ import (
 
 	"verif/internal/exact"
 	"verif/internal/h"
+	"verif/internal/refmodel"
 )
 
 type P = exact.P
@@ -122,4 +123,25 @@ func maxAbs(ps []P) float64 {
 		m = math.Max(m, math.Max(math.Abs(p[0]), math.Abs(p[1])))
 	}
 	return m
+}
+
+// retained keeps a value the library returned earlier together with a private copy, so a later case can
+// observe that the library overwrote memory it had already handed out (shared scratch buffers, pools).
+type retained struct {
+	g, snap orb.Geometry
+	what    string
+}
+
+func (r *retained) check(c *h.Ctx) {
+	if r.g != nil && !refmodel.EqualBits(r.g, r.snap) {
+		c.Fail("", "a value returned by an earlier call was overwritten by a later call ("+r.what+")", map[string]interface{}{"returned_then": sv(r.snap), "same_memory_now": sv(r.g)})
+	}
+	r.g, r.snap = nil, nil
+}
+
+func (r *retained) set(g orb.Geometry, what string) {
+	if g == nil {
+		return
+	}
+	r.g, r.snap, r.what = g, refmodel.Copy(g), what
 }
